@@ -36,6 +36,8 @@ class Context:
         self.prop = prop
         self.prog = prog
         self.cg = cg
+        from . import norm as _norm
+        _norm.CG = cg
         self.tier = tier
         self.shared = shared if shared is not None else {}
         self.findings = []
